@@ -77,6 +77,29 @@ Definition mon_C13p (sc : scen) (obs : list callobs) : bool :=
 
 Definition check_C13p := check_with ps_C13 mon_C13p.
 
+(* C10, "a poisoned acquisition still acquires the lock": a non-blocking acquisition (try / scoped try) of a Poisonable
+   root whose leaves are all available in the hold table left by the previous call (histories are API-call-atomic) does
+   not report WouldBlock, whatever the poison flag says.  Evaluated on the implementation's observation next to mon_C10. *)
+Fixpoint still_acquires (sc : scen) (prev : list rawst) (h : list (tid * apiop)) (obs : list callobs) : bool :=
+  match h, obs with
+  | (t, o) :: h', co :: obs' =>
+      (match o with
+       | AAcquire c m (FTry | FScopedTry _ _) =>
+           match nth_error (sc_colls sc) c with
+           | Some s =>
+               match root_poison s with
+               | Some _ => if forallb (fun l => leaf_avail m (nth l prev raw_free)) (leaves s)
+                           then negb (rcode_eqb (co_ret co) RWouldBlock) else true
+               | None => true
+               end
+           | None => true
+           end
+       | _ => true
+       end) && still_acquires sc (co_holds co) h' obs'
+  | _, _ => true
+  end.
+
+
 (* ---------------------------------------------------------------- C07: duplicate detection is exact *)
 (* [sorting]: boxed/ref (true) or retrying (false); [got]: the checked constructor returned Some *)
 Definition model_try_new (sorting : bool) (am : addrmap) (s : shape) : bool :=
